@@ -288,6 +288,10 @@ pub fn prod_step(pre: Pre, ops: [(u8, u8); 2]) {
                     match wr.write(src) {
                         Ok(k) => {
                             assert!(k <= n, "C08: write reported more bytes than it was given");
+                            // a write that fills the chunk publishes it; with the body gone or the
+                            // transfer aborted that cannot succeed, so a successful write never
+                            // leaves a full buffer behind
+                            assert!(live || wr.buf.len() < wr.buf.capacity(), "C11: a chunk-completing write succeeded although the body is gone or aborted");
                             if live && !failed_before {
                                 assert!(n == 0 || k >= 1, "C08: write of a non-empty buffer to a live body accepted nothing");
                             }
